@@ -18,7 +18,7 @@ def prop(pid, quick, thorough=(), level="other", explanation="", assumptions=(),
 
 prop(
     "C01",
-    [fmtparse.rule_fmt_counter, conv.rule_from_table, hdr.rule_bounds_appended, idx.rule_idx_space, shape.rule_discriminants, hdr.rule_tpl_hdr, hdr.rule_tpl_lint, hdr.rule_tpl_selfassoc, rawid.rule_raw_id, shape.rule_tpl_prec, fmtdec.rule_traversal, fmtdec.rule_guard_use, fmtdec.rule_shared_decision, gendet.rule_generics_search, gendet.rule_type_param_used, reject.rule_reject_ledger, idx.rule_enumerate_positions, errsel.rule_error_selection, fmtdec.rule_expansion_pair, hdr.rule_generics_preserve],
+    [hyg.rule_generic_capture, fmtparse.rule_fmt_counter, conv.rule_from_table, hdr.rule_bounds_appended, idx.rule_idx_space, shape.rule_discriminants, hdr.rule_tpl_hdr, hdr.rule_tpl_lint, hdr.rule_tpl_selfassoc, rawid.rule_raw_id, shape.rule_tpl_prec, fmtdec.rule_traversal, fmtdec.rule_guard_use, fmtdec.rule_shared_decision, gendet.rule_generics_search, gendet.rule_type_param_used, reject.rule_reject_ledger, idx.rule_enumerate_positions, errsel.rule_error_selection, fmtdec.rule_expansion_pair, hdr.rule_generics_preserve],
     explanation="Structural necessary conditions of 'every supported input expands to code that compiles warning-free': the 27 generated impl headers and every TypeGenerics splice "
     "(interpolations typed by rustc through the MIR binding join, identifier provenance by def-use), lint attributes on impls that name user variants, no Self::<Assoc> in enum-capable expanders, raw identifiers, "
     "spliced user expressions.",
@@ -53,7 +53,7 @@ prop(
 
 prop(
     "C04",
-    [split.rule_alias_test, split.rule_ident_argument, hdr.rule_bounds_appended, attrs.rule_typed_attrs, tables.rule_fmt_trait_tables, fmtdec.rule_guard_use, fmtdec.rule_traversal, fmtdec.rule_lookup_agreement, fmtdec.rule_shared_decision, fmtparse.rule_fmt_counter, fmtparse.rule_peg_tables, fmtdec.rule_expansion_pair],
+    [hdr.rule_user_bounds_flow, split.rule_alias_test, split.rule_ident_argument, hdr.rule_bounds_appended, attrs.rule_typed_attrs, tables.rule_fmt_trait_tables, fmtdec.rule_guard_use, fmtdec.rule_traversal, fmtdec.rule_lookup_agreement, fmtdec.rule_shared_decision, fmtparse.rule_fmt_counter, fmtparse.rule_peg_tables, fmtdec.rule_expansion_pair],
     explanation="Bounds are emitted by six templates `#ty: core::fmt::#Trait`; each must be guarded by contains_generics on the same binding; contains_generics must traverse every variant / type-bearing field of "
     "syn::Type, PathArguments and GenericArgument (read from the syn sources the crate builds against); the placeholder->field lookup agrees with its sibling and with the binder names; body and bounds take the same decisions.",
     assumptions=["NOT decided: that bounded_types is a complete algorithm for arbitrary literals beyond these necessary conditions", NOT_DECIDED_VALUES],
@@ -109,7 +109,7 @@ prop(
 
 prop(
     "C11",
-    [optrules.rule_enabled_default, shape.rule_ref_types, hdr.rule_generics_preserve, facade.rule_error_display, shape.rule_accessors, errsel.rule_view_defs, idx.rule_idx_space, rawid.rule_raw_id, generic.rule_arg_order, generic.rule_field_correspondence, generic.rule_order_adaptors, optrules.rule_meta_defaults, state.rule_raw_flags],
+    [attrs.rule_level_flags, optrules.rule_enabled_default, shape.rule_ref_types, hdr.rule_generics_preserve, facade.rule_error_display, shape.rule_accessors, errsel.rule_view_defs, idx.rule_idx_space, rawid.rule_raw_id, generic.rule_arg_order, generic.rule_field_correspondence, generic.rule_order_adaptors, optrules.rule_meta_defaults, state.rule_raw_flags],
     explanation="Accessor methods, patterns, binders and error values are built per variant from one source; the failure re-match covers all variants; TryInto patterns go through matcher(field_indexes, binders) (IDX-SPACE, VIEW-DEF); "
     "method names are built from un-raw variant names.",
     assumptions=["snake_case conversion is delegated to convert_case (not analysed)", NOT_DECIDED_VALUES],
@@ -140,7 +140,7 @@ prop(
 
 prop(
     "C15",
-    [hyg.rule_tpl_ufcs, hyg.rule_tpl_hyg, hyg.rule_tpl_meth, hyg.rule_tpl_assoc, hyg.rule_tpl_export, cfg.rule_cfg_export],
+    [hyg.rule_generic_capture, hyg.rule_tpl_ufcs, hyg.rule_tpl_hyg, hyg.rule_tpl_meth, hyg.rule_tpl_assoc, hyg.rule_tpl_export, cfg.rule_cfg_export],
     explanation="Name resolution of a template token depends only on the token sequence: every path root / macro name / trait-method call of the 247 templates is classified; every derive_more:: path has a backing export "
     "under the features that compile the emitting code.",
     assumptions=[
@@ -159,7 +159,7 @@ prop(
 
 prop(
     "C17",
-    [shape.rule_discriminants, attrs.rule_legacy_attr_parser, attrs.rule_typed_attrs, attrs.rule_attr_positions, conv.rule_merge_symmetry, optrules.rule_option_flow, reject.rule_reject_ledger, fmtdec.rule_attr_separator, optrules.rule_meta_defaults, state.rule_accumulators, state.rule_loop_exit],
+    [attrs.rule_level_flags, hdr.rule_user_bounds_flow, shape.rule_discriminants, attrs.rule_legacy_attr_parser, attrs.rule_typed_attrs, attrs.rule_attr_positions, conv.rule_merge_symmetry, optrules.rule_option_flow, reject.rule_reject_ledger, fmtdec.rule_attr_separator, optrules.rule_meta_defaults, state.rule_accumulators, state.rule_loop_exit],
     explanation="Attribute totality: the untyped parser's checks dominate every successful return, its name matches end in rejecting arms, slots are written once; typed attributes reject repetition unless merging is documented "
     "(merge overrides enumerated, symmetric), synonyms are accepted alike and not branched on, legacy syntax is detected on every path, positional conflicts raise their diagnostics.",
     assumptions=["NOT decided: token-equality of expansions for synonymous inputs (follows from the parsers producing the same value; not proved), diagnostics' wording"],
